@@ -227,35 +227,47 @@ func decodeRemLen(b []byte) (uint64, int) {
 	return x, len(b)
 }
 
-func streamCase(s []byte, max int64) (string, int) {
+// streamCase loops DecodePacket over the stream like Conn.Process does.  hung = the loop was still
+// running (and allocating) after 3 s: the caller must stop the process after recording the case.
+func streamCase(s []byte, max int64) (term string, nServed int, hung bool) {
 	rd := bufio.NewReaderSize(bytes.NewReader(s), 65536)
 	var served []string
 	end := 0
 	var m0, m1 runtime.MemStats
 	runtime.ReadMemStats(&m0)
-	for {
-		var m mqtt.Message
-		var err error
-		p, _ := vlib.Catch(func() { m, err = mqtt.DecodePacket(rd, max) })
-		if p {
-			end = 3
-			break
-		}
-		if err != nil {
-			switch {
-			case errors.Is(err, io.EOF), errors.Is(err, io.ErrUnexpectedEOF):
-				end = 0
-			case errors.Is(err, mqtt.ErrMessageTooLarge):
-				end = 1
-			default:
-				end = 2
+	done := make(chan struct{})
+	go func() {
+		defer close(done)
+		for {
+			var m mqtt.Message
+			var err error
+			p, _ := vlib.Catch(func() { m, err = mqtt.DecodePacket(rd, max) })
+			if p {
+				end = 3
+				return
 			}
-			break
+			if err != nil {
+				switch {
+				case errors.Is(err, io.EOF), errors.Is(err, io.ErrUnexpectedEOF):
+					end = 0
+				case errors.Is(err, mqtt.ErrMessageTooLarge):
+					end = 1
+				default:
+					end = 2
+				}
+				return
+			}
+			served = append(served, packetTerm(m))
 		}
-		served = append(served, packetTerm(m))
+	}()
+	select {
+	case <-done:
+	case <-time.After(3 * time.Second):
+		runtime.ReadMemStats(&m1)
+		return vlib.App("CStream", vlib.Bytes(s), vlib.N(uint64(max)), "[]", "4", vlib.N(m1.TotalAlloc-m0.TotalAlloc)), 0, true
 	}
 	runtime.ReadMemStats(&m1)
-	return vlib.App("CStream", vlib.Bytes(s), vlib.N(uint64(max)), vlib.List(served), vlib.N(uint64(end)), vlib.N(m1.TotalAlloc-m0.TotalAlloc)), len(served)
+	return vlib.App("CStream", vlib.Bytes(s), vlib.N(uint64(max)), vlib.List(served), vlib.N(uint64(end)), vlib.N(m1.TotalAlloc-m0.TotalAlloc)), len(served), false
 }
 
 // ---- cluster port -------------------------------------------------------------------------------
@@ -589,8 +601,14 @@ func main() {
 	for i := 0; i < nStream; i++ {
 		s, kind := hostileStream(r, key)
 		max := int64(vlib.Pick(r, 64, 1024, 65536, 65536, 1<<20))
-		t, served := streamCase(s, max)
-		sh.Add(t, map[string]interface{}{"op": "DecodePacket loop", "kind": kind, "bytes": len(s), "max": max, "served": served}, "stream/"+kind, len(s) > 0)
+		t, served, hung := streamCase(s, max)
+		sh.Add(t, map[string]interface{}{"op": "DecodePacket loop", "kind": kind, "bytes": len(s), "max": max, "served": served, "hung": hung}, "stream/"+kind, len(s) > 0)
+		if hung {
+			// the decoder is still running on another goroutine and cannot be stopped: report what
+			// was seen and end the process
+			sh.Finish("stopped early: the packet loop did not end on the last stream case")
+			os.Exit(0)
+		}
 	}
 
 	// 2. history pre-allocation
